@@ -72,6 +72,15 @@ def run(ck):
         for j, v in enumerate([rng.scalar(), (1 << min(2 * p, 254)) % R]):
             add(f"rp{p}_{j}", ["w " + hx(v), f"rpairs {p} $0", "snap"], ("pairs", p, v))
             ck.count(("pairs", p, v), kind="component_range (deprecated)")
+    # several range checks on ONE witness in one composer (any mix of widths and entry points): every check
+    # must emit its gates whatever was checked before; the narrowest width decides satisfiability
+    for j, (ops, vs) in enumerate([(["rbits 256", "rbits 8"], [5, 1 << 8, R - 1]), (["rbits 255", "rbits 8"], [5, 1 << 8]), (["rbits 64", "rbits 8"], [5, 1 << 8, 1 << 63]),
+                                   (["rbits 8", "rbits 64"], [5, 1 << 8]), (["rbits 8", "rbits 8"], [255, 256]), (["rbits 0", "rbits 8"], [0, 3]),
+                                   (["rpairs 128", "rbits 16"], [7, 1 << 16]), (["rbits 256", "rpairs 4"], [9, 1 << 8]), (["rbits 7", "rbits 256", "rbits 9"], [100, 200, 1 << 8]),
+                                   (["rpairs 130", "rpairs 3", "rbits 256"], [1, 64])]):
+        for k, v in enumerate(vs):
+            add(f"seq{j}_{k}", ["w " + hx(v)] + [f"{o} $0" for o in ops] + ["snap"], ("seq", tuple(ops), v))
+            ck.count(("seq", tuple(ops), v), kind="several range checks on one witness")
     impl, model = composer.run_both(ck, "\n".join(lines) + "\n", "c09")
     ck.sample({"program": progs["rb7_0"]}); ck.sample({"program": progs["rp3_0"]})
     bad = composer.compare_programs(ck, progs, impl, model, "C09")
@@ -93,6 +102,11 @@ def run(ck):
     for name, m in meta.items():
         if name not in impl: continue
         kind, w, v = m
+        if kind == "seq":
+            widths = [int(o.split()[1]) * (2 if o.startswith("rpairs") else 1) for o in w]
+            eff = min(min(x, 256) for x in widths)
+            jobs.append((name, Snapshot(impl[name]), None)); expect[name] = (v < (1 << eff)) if eff <= 254 else True
+            continue
         width = w if kind != "pairs" else min(2 * w, 256)
         snap = Snapshot(impl[name])
         jobs.append((name, snap, None))
@@ -127,7 +141,7 @@ def run(ck):
     # layout-agnostic adversarial fill: on whatever rows the real code emitted, give every chain cell the
     # unmasked shift of the (out-of-range) value, so the excess lands in the first cell of the chain
     for name, m in list(meta.items()):
-        if name not in impl or m[0] == "cancelling quads": continue
+        if name not in impl or m[0] in ("cancelling quads", "seq"): continue
         kind, w, v = m
         width = w if kind != "pairs" else min(2 * w, 256)
         if not (0 < width <= 254) or v < (1 << width) or kind == "pairs": continue
